@@ -400,6 +400,9 @@ func (ex *Exec) contractBuiltin(p *Path, name string, call *ast.CallExpr) ([]Val
 	boolT, strT, intT := types.Typ[types.Bool], types.Typ[types.String], types.Typ[types.Int]
 	arg := func(i int) Value { return ex.eval(p, call.Args[i]) }
 	one := func(v Value) ([]Value, bool) { return []Value{v}, true }
+	if vs, ok := ex.ghostBuiltin(p, name, call); ok {
+		return vs, true
+	}
 	switch name {
 	case "len":
 		return one(ex.lenOf(arg(0), call.Pos()))
@@ -487,6 +490,15 @@ func (ex *Exec) contractBuiltin(p *Path, name string, call *ast.CallExpr) ([]Val
 		ptr := arg(0)
 		et := elemType(ptr.Ty)
 		return one(ex.heapRead(p, "deref:"+sortToken(ex.c.SortOf(et)), et, ptr.T))
+	case "charAt":
+		return one(Value{"(str.to_code (str.at " + arg(0).T + " " + arg(1).T + "))", intT})
+	case "result0", "result1", "result2":
+		vals := ex.evalMulti(p, call.Args[0])
+		idx := int(name[len(name)-1] - '0')
+		if idx >= len(vals) {
+			ex.unsupp(call.Pos(), "%s: call has %d results", name, len(vals))
+		}
+		return one(vals[idx])
 	case "strLess":
 		return one(Value{"(str.< " + arg(0).T + " " + arg(1).T + ")", boolT})
 	case "strLenCP":
